@@ -119,10 +119,17 @@ def async_part(chk):
   for kind in ('stop', 'stop-exc', 'stop-no-consumer', 'other-fails', 'other-fails-while-idle'):
     for cap in (0, 1, 2):
       for turns in (0, 3, 12):
-        try:
-          st = asyncio.run(asyncio.wait_for(scenario(kind, cap, turns), 20))
-        except Exception as e:  # pylint: disable=broad-exception-caught
-          chk.violation(f'async:{kind}:harness-error:{type(e).__name__}', repr(e), dict(kind='async-queue', scenario=kind, cap=cap, turns=turns))
+        # on its own thread with a deadline: a consumer left blocked in an executor thread would otherwise keep
+        # asyncio.run() from returning (it joins the default executor)
+        from harness import dist
+        status, st = dist.run_with_deadline(lambda: asyncio.run(asyncio.wait_for(scenario(kind, cap, turns), 20)), 12)
+        if status == 'hung':
+          chk.replayed()
+          chk.violation(f'async:consumer-blocked:{kind}', f'[AsyncIteratorQueue({cap}), {kind}, after {turns} loop turns] the event loop cannot shut down: '
+                        'a get()/put() on an executor thread is blocked for ever', dict(kind='async-queue', scenario=kind, cap=cap, turns_before=turns))
+          continue
+        if status == 'raised':
+          chk.violation(f'async:{kind}:harness-error:{type(st).__name__}', repr(st), dict(kind='async-queue', scenario=kind, cap=cap, turns=turns))
           continue
         chk.replayed()
         cfg = f'AsyncIteratorQueue({cap}), {kind}, after {turns} loop turns'
